@@ -171,3 +171,16 @@ Theorem C05_efc_row_zero_width_not_mean_refuted :
     imp_code dmin dmax (Rmax MINVAL 0) mid p r = dmax /\ dmax <> (dmin + dmax) / 2)%R.
 Proof. exact efc_row_zero_width_not_mean_refuted. Qed.
 Print Assumptions C05_efc_row_zero_width_not_mean_refuted.
+
+(* dmin > dmax, x in (0,1): MuJoCo C evaluates dmin + y(x)(dmax - dmin) unclamped (> dmax); the code's
+   wp.clamp(imp, dmin, dmax) returns dmax *)
+Theorem C05_efc_row_dmin_above_dmax_refuted :
+  forall dmin dmax width mid p r,
+    (dmax < dmin -> 0 < mid < 1 -> 1 <= p -> 0 < Rabs r / width < 1 ->
+    imp_code dmin dmax width mid p r = dmax /\ dmax < imp_doc dmin dmax width mid p r)%R.
+Proof. exact efc_row_dmin_above_dmax_refuted. Qed.
+Print Assumptions C05_efc_row_dmin_above_dmax_refuted.
+
+Example C05_efc_row_dmin_above_dmax_hyps_satisfiable :
+  (5 / 10 < 95 / 100 /\ 0 < 1 / 2 < 1 /\ 1 <= 2 /\ 0 < Rabs (3 / 10) / (5 / 10) < 1)%R.
+Proof. exact efc_row_dmin_above_dmax_hyps_satisfiable. Qed.
